@@ -751,6 +751,16 @@ func (k *pkAPI) judgeVerify(what string, pk, msg, sig []byte, c tc) {
 	if what == "public-key" {
 		api = k.a
 	}
+	if len(c.data) != len(orig) {
+		// the other (uncompressed) form of the very same point is a legitimate
+		// second spelling; anything else of that length is judged below
+		if vv := api.ref(c.data, false); vv.dec.Why == "" {
+			if ho := api.g.Decode(orig); ho.Why == "" && api.g.C.Equal(vv.dec.P, ho.P) {
+				lib.Count("alternate-form-of-the-honest-point-accepted:" + entry)
+				return
+			}
+		}
+	}
 	v := api.ref(c.data, true)
 	cls := "foreign-valid-point-verifies"
 	switch {
@@ -824,6 +834,20 @@ func TestVerifBLSKeys(t *testing.T) {
 					vw.add("cofactor-torsion-only", g.Encode(tp, true))
 					lib.Count("verify:torsion-shifted-presented")
 				}
+				// strings of the UNCOMPRESSED length: the honest point in that form
+				// (a legitimate second spelling), the same with the compression flag
+				// set, and the compressed encoding followed by other bytes up to that
+				// length (a decoder that reads only a prefix accepts it)
+				unc := g.Encode(d.P, false)
+				vw.add("uncompressed-form", unc)
+				fl := lib.Clone(unc)
+				fl[0] |= 0x80
+				vw.add("uncompressed-length-with-compression-flag", fl)
+				tail := g.UncompLen() - g.CompLen()
+				vw.add("compressed-padded-to-uncompressed-length", append(lib.Clone(part.enc), make([]byte, tail)...))
+				vw.add("compressed-padded-to-uncompressed-length", append(lib.Clone(part.enc), kr.Bytes(tail)...))
+				vw.add("compressed-padded-to-uncompressed-length", append(lib.Clone(part.enc), part.enc[:tail]...))
+				lib.Count("verify:uncompressed-length-strings-presented")
 				vw.add("negated", g.Encode(g.C.Neg(d.P), true))
 				vw.add("infinity", g.Encode(g.C.Infinity(), true))
 				// the same x with p added where it fits, flags toggled
